@@ -1380,7 +1380,10 @@ theorem writeBack_obliv : Obliv writeBack := by
   | some idx =>
     have : (setFcc n s).cache.tag = some idx := ht
     rw [this]
-    exact devWrite_obliv idx s n
+    dsimp only
+    rw [devWrite_obliv idx s n]
+    rcases devWrite idx s with ⟨r, s'⟩
+    cases r <;> rfl
 
 theorem writeBackWithDuplicate_obliv (dup : Nat) : Obliv (writeBackWithDuplicate dup) := by
   intro s n
@@ -1396,7 +1399,11 @@ theorem writeBackWithDuplicate_obliv (dup : Nat) : Obliv (writeBackWithDuplicate
     rw [devWrite_obliv idx s n]
     rcases devWrite idx s with ⟨r, s'⟩
     cases r with
-    | ok u => exact devWrite_obliv dup s' n
+    | ok u =>
+      dsimp only
+      rw [devWrite_obliv dup s' n]
+      rcases devWrite dup s' with ⟨r2, s2⟩
+      cases r2 <;> rfl
     | err e => rfl
     | panic m => rfl
     | diverged => rfl
